@@ -12,6 +12,12 @@
 //   {"op":"quit"}
 // Every response is one JSON line.
 
+#[path = "../redzone.rs"]
+mod redzone;
+
+#[global_allocator]
+static ALLOC: redzone::RedZone = redzone::RedZone;
+
 use std::cell::RefCell;
 use std::io::{BufRead, Read, Write};
 use std::panic::{catch_unwind, AssertUnwindSafe};
@@ -146,7 +152,7 @@ fn quote_for_prolog(s: &str) -> String {
             '"' => o.push_str("\\\""),
             '\n' => o.push_str("\\n"),
             '\t' => o.push_str("\\t"),
-            c if (c as u32) < 0x20 || c as u32 == 0x7f => {
+            c if (c as u32) < 0x20 || ((c as u32) >= 0x7f && (c as u32) < 0xa0) => {
                 o.push_str(&format!("\\x{:x}\\", c as u32));
             }
             c => o.push(c),
@@ -324,6 +330,17 @@ fn main() {
                 r
             }
             "footprint" => footprint_json(&machine, req["prefix"].as_str().unwrap_or("zzvx_")),
+            "rz" => json!({"enabled": redzone::enabled(),
+                           "smashed": redzone::SMASHED.load(std::sync::atomic::Ordering::SeqCst)}),
+            "tight" => {
+                // one-cell heap growth on/off (the heap is trimmed first when switching on)
+                let on = req["on"].as_bool().unwrap_or(false);
+                if on {
+                    machine.verif_trim_heap();
+                }
+                verif::set_tight_growth(on);
+                json!({"ok": true})
+            }
             "consult" => {
                 let text = req["text"].as_str().unwrap_or("").to_string();
                 let module = req["module"].as_str().unwrap_or("user").to_string();
